@@ -1171,10 +1171,11 @@ class Definition(Macro):
         if not self.args: return self.definition
 
         name = macroName(self)
-        argIter = iter(self.args)
+        args = list(self.args)
+        argIter = iter(enumerate(args))
         inparam = False
         params = [None]
-        for a in argIter:
+        for i, a in argIter:
 
             # Beginning a new parameter
             if a.catcode == Token.CC_PARAMETER:
@@ -1185,7 +1186,7 @@ class Definition(Macro):
                                                    name='#%s' % len(params)))
 
                 # Get the parameter number
-                for a in argIter:
+                for i, a in argIter:
                     # Numbered parameter
                     if a in string.digits:
                         inparam = True
@@ -1208,13 +1209,20 @@ class Definition(Macro):
                         raise ValueError('Invalid arg string: %s' % ''.join(self.args))
                     break
 
-            # In a parameter, so get everything up to a token that matches `a`
+            # In a parameter, so get everything up to the delimiter: all of
+            # the tokens from `a` up to the next parameter
             elif inparam:
+                delim = [a]
+                while i + 1 < len(args) and \
+                      args[i+1].catcode != Token.CC_PARAMETER:
+                    i, a = next(argIter)
+                    delim.append(a)
                 param = []
                 for t in tex.itertokens():
-                    if t == a:
-                        break
                     param.append(t)
+                    if param[-len(delim):] == delim:
+                        del param[-len(delim):]
+                        break
                 inparam = False
                 params.append(param)
 
